@@ -83,9 +83,15 @@ def item(p, b, tag):
 @st.composite
 def ubx_items(draw, good_bias=True):
     kind = draw(st.sampled_from(["corpus", "corpus", "target", "target", "badck", "odd", "long", "magic-ck",
-                                 "block"]))
+                                 "block", "carrier"]))
     if kind == "corpus":
         return item("ubx", draw(st.sampled_from(corpus()["ubx"])), "good")
+    if kind == "carrier":
+        # a text / opaque message whose payload quotes a complete frame of another protocol
+        inner = draw(st.one_of(st.sampled_from(corpus()["nmea"][:20]), st.sampled_from(corpus()["rtcm"][:20])))
+        ck = draw(st.sampled_from([b"\x04\x02", b"\x04\x04", b"\x77\x01"]))
+        pre = draw(st.sampled_from([b"", b"rx: ", b"\x00"]))
+        return item("ubx", codec.ubx_frame(ck[0:1], ck[1:2], pre + inner), "carrier")
     if kind == "magic-ck":
         # checksum bytes that look like a line terminator / another preamble
         ck, p = draw(gframes.odd_clsid()), draw(st.binary(max_size=12))
